@@ -221,6 +221,22 @@ package callbacks
 //@   loop "i := 0; i < reflectResults.Len(); i++" invariant a-single-parent-was-reset: cleanedKind == 25 ==> cleanupSets == sets0 + 1
 //@   loop "i := 0; i < reflectResults.Len(); i++" invariant every-parent-of-a-slice-was-reset: (cleanedKind == 23 || cleanedKind == 17) ==> cleanupSets == resetUpTo
 
+//@ # ---------- C11: nested preloads run with the settings of the query they belong to ----------
+//@ # The handle a nested preload runs on keeps the Unscoped flag of the query (soft-deleted rows are loaded at every
+//@ # level or at none), and the records of a joined relation are preloaded with the join names below that relation,
+//@ # not with those of the level above (a same-named relation one level down is not "already joined").
+//@ site preload-handle-keeps-unscoped
+//@   match store Statement.Unscoped
+//@   in callbacks.preloadDB
+//@   min-sites 1
+//@   assert same-as-the-query: recv == tx.Statement && arg0 == db.Statement.Unscoped [C11,C08]
+//@ site joined-records-preloaded-with-their-own-joins
+//@   match call callbacks.preloadEntryPoint
+//@   in callbacks.preloadEntryPoint
+//@   min-sites 2
+//@   assert joins-below-the-relation: arg1 == nestedJoins [C11]
+//@   assert on-the-handle-made-for-the-record: arg0 == tx [C11]
+
 //@ # ---------- C13: association values saved once per operation ----------
 //@ # "Each hook fires exactly once per record": a record reached twice through associations in one Create/Update
 //@ # must be saved (and run its hooks) once. The per-operation visit map remembers what was saved; the first
